@@ -56,7 +56,9 @@ RE(e, tight, ly) ==
       \* operand of a postfix form (index, slice, field, type assertion)
       Post(x)     == IF Prec(x) < 8 THEN Par(x) ELSE RE(x, tight, ly)
       Left(x, p)  == IF Prec(x) < p THEN Par(x) ELSE RE(x, tight, ly)
-      Right(x, p) == IF Prec(x) <= p \/ (Prec(x) = 7 /\ (tight \/ ly = "tight")) THEN Par(x) ELSE RE(x, tight, ly)
+      \* a unary right operand of a symbolic operator is always parenthesised (a--b would be hard to read
+      \* and the token sequence must not depend on the layout)
+      Right(x, p) == IF Prec(x) <= p \/ (Prec(x) = 7 /\ p >= 3) THEN Par(x) ELSE RE(x, tight, ly)
       Opt(xs)     == IF Len(xs) = 0 THEN <<>> ELSE RE(xs[1], FALSE, ly)
   IN
   CASE e.k = "num"  -> <<[cp |-> NumCps(e.n)]>>
@@ -88,52 +90,79 @@ IndP(d, ly) == IF ly = "wide" THEN <<Ind(d), "  ">> ELSE IF ly = "tight" THEN <<
 Gap(ly) == IF ly = "tight" THEN <<>> ELSE IF ly = "wide" THEN <<"  ">> ELSE <<" ">>
 Eol(ly) == IF ly = "wide" THEN <<" \n">> ELSE <<"\n">>
 
-RECURSIVE RS(_, _, _)
-RECURSIVE RBlock(_, _, _)
-RBlock(ss, d, ly) == Flat([i \in DOMAIN ss |-> RS(ss[i], d, ly)])
+(* statements are rendered as sequences of LINES (a line = pieces without the newline),  *)
+(* so that trivia (comments, blank lines) can be attached to any line of the program     *)
+RECURSIVE LS(_, _, _)
+RECURSIVE LBlock(_, _, _)
+LBlock(ss, d, ly) == Flat([i \in DOMAIN ss |-> LS(ss[i], d, ly)])
 
 \* a call written as a statement (or at the top level of an expression): no parentheses
 CallP(c, ly) == <<c.f>> \o Flat([i \in DOMAIN c.xs |-> Sep(ly) \o RE(c.xs[i], TRUE, ly)])
 
-RS(s, d, ly) ==
+\* a multi-line array / map literal [k |-> "ml", x |-> literal, per |-> elements per line]: the lines
+\* after the opening bracket: elements (tight) indented one level deeper, then the closing bracket
+MLLines(m, d, ly) ==
+  LET e == m.x
+      n == Len(e.xs)
+      El(i) == IF e.k = "map" THEN <<[cp |-> e.ks[i]], ":">> \o RE(e.xs[i], TRUE, ly) ELSE RE(e.xs[i], TRUE, ly)
+      nl == (n + m.per - 1) \div m.per
+      Row(r) == IndP(d + 1, ly) \o JoinP([j \in 1..(IF r * m.per <= n THEN m.per ELSE n - (r - 1) * m.per) |-> El((r - 1) * m.per + j)], Sep(ly))
+  IN [r \in 1..nl |-> Row(r)] \o << IndP(d, ly) \o <<IF e.k = "map" THEN "}" ELSE "]">> >>
+Open(m) == IF m.x.k = "map" THEN "{" ELSE "["
+\* head \o value, where the value may be a multi-line literal
+WithValue(head, x, d, ly) == IF x.k = "ml" THEN << head \o <<Open(x)>> >> \o MLLines(x, d, ly)
+                             ELSE << head \o RE(x, FALSE, ly) >>
+
+LS(s, d, ly) ==
   LET II == IndP(d, ly)
-      E == Eol(ly)
   IN
-  CASE s.k = "decl"   -> II \o <<s.nm, ":">> \o TypeP(s.ty) \o E
-    [] s.k = "infer"  -> II \o <<s.nm>> \o Gap(ly) \o <<":=">> \o Gap(ly) \o RE(s.x, FALSE, ly) \o E
-    [] s.k = "asg"    -> II \o RE(s.tg, TRUE, ly) \o Gap(ly) \o <<"=">> \o Gap(ly) \o RE(s.x, FALSE, ly) \o E
-    [] s.k = "callst" -> II \o CallP(s.x, ly) \o E
-    [] s.k = "ret"    -> II \o <<"return">> \o (IF Len(s.xs) = 0 THEN <<>> ELSE <<" ">> \o RE(s.xs[1], FALSE, ly)) \o E
-    [] s.k = "brk"    -> II \o <<"break">> \o E
+  CASE s.k = "decl"   -> << II \o <<s.nm, ":">> \o TypeP(s.ty) >>
+    [] s.k = "infer"  -> WithValue(II \o <<s.nm>> \o Gap(ly) \o <<":=">> \o Gap(ly), s.x, d, ly)
+    [] s.k = "asg"    -> WithValue(II \o RE(s.tg, TRUE, ly) \o Gap(ly) \o <<"=">> \o Gap(ly), s.x, d, ly)
+    [] s.k = "callst" -> << II \o CallP(s.x, ly) >>
+    [] s.k = "ret"    -> << II \o <<"return">> \o (IF Len(s.xs) = 0 THEN <<>> ELSE <<" ">> \o RE(s.xs[1], FALSE, ly)) >>
+    [] s.k = "brk"    -> << II \o <<"break">> >>
     [] s.k = "if"     -> Flat([j \in DOMAIN s.cs |->
-                              II \o (IF j = 1 THEN <<"if ">> ELSE <<"else if ">>) \o RE(s.cs[j], FALSE, ly) \o E
-                                \o RBlock(s.bs[j], d + 1, ly)])
-                         \o (IF Len(s.el) = 0 THEN <<>> ELSE II \o <<"else">> \o E \o RBlock(s.el[1], d + 1, ly))
-                         \o II \o <<"end">> \o E
-    [] s.k = "while"  -> II \o <<"while ">> \o RE(s.c, FALSE, ly) \o E \o RBlock(s.ss, d + 1, ly) \o II \o <<"end">> \o E
-    [] s.k = "for"    -> II \o <<"for ">> \o (IF s.nm = "" THEN <<>> ELSE <<s.nm>> \o Gap(ly) \o <<":=">> \o Gap(ly))
-                           \o <<"range">> \o Flat([i \in DOMAIN s.xs |-> Sep(ly) \o RE(s.xs[i], TRUE, ly)]) \o E
-                           \o RBlock(s.ss, d + 1, ly) \o II \o <<"end">> \o E
-    [] s.k = "raw"    -> II \o s.ps \o E          \* a line given as text
-    [] OTHER          -> <<"?\n">>
+                              << II \o (IF j = 1 THEN <<"if ">> ELSE <<"else if ">>) \o RE(s.cs[j], FALSE, ly) >>
+                                \o LBlock(s.bs[j], d + 1, ly)])
+                         \o (IF Len(s.el) = 0 THEN <<>> ELSE << II \o <<"else">> >> \o LBlock(s.el[1], d + 1, ly))
+                         \o << II \o <<"end">> >>
+    [] s.k = "while"  -> << II \o <<"while ">> \o RE(s.c, FALSE, ly) >> \o LBlock(s.ss, d + 1, ly) \o << II \o <<"end">> >>
+    [] s.k = "for"    -> << II \o <<"for ">> \o (IF s.nm = "" THEN <<>> ELSE <<s.nm>> \o Gap(ly) \o <<":=">> \o Gap(ly))
+                              \o <<"range">> \o Flat([i \in DOMAIN s.xs |-> Sep(ly) \o RE(s.xs[i], TRUE, ly)]) >>
+                           \o LBlock(s.ss, d + 1, ly) \o << II \o <<"end">> >>
+    [] s.k = "raw"    -> << II \o s.ps >>          \* a line given as text
+    [] OTHER          -> << <<"?">> >>
 
 ParamP(p) == <<" ", p.nm, ":">> \o TypeP(p.ty)
 
-RFunc(fd, ly) ==
-  <<"func ", fd.nm>> \o (IF fd.rt = T_none THEN <<>> ELSE <<":">> \o TypeP(fd.rt))
-    \o Flat([i \in DOMAIN fd.ps |-> ParamP(fd.ps[i])])
-    \o (IF Len(fd.vp) = 0 THEN <<>> ELSE ParamP(fd.vp[1]) \o <<"...">>)
-    \o Eol(ly) \o RBlock(fd.ss, 1, ly) \o <<"end">> \o Eol(ly)
+LFunc(fd, ly) ==
+  << IndP(0, ly) \o <<"func ", fd.nm>> \o (IF fd.rt = T_none THEN <<>> ELSE <<":">> \o TypeP(fd.rt))
+       \o Flat([i \in DOMAIN fd.ps |-> ParamP(fd.ps[i])])
+       \o (IF Len(fd.vp) = 0 THEN <<>> ELSE ParamP(fd.vp[1]) \o <<"...">>) >>
+    \o LBlock(fd.ss, 1, ly) \o << IndP(0, ly) \o <<"end">> >>
 
-RHandler(h, ly) ==
-  <<"on ", h.ev>> \o Flat([i \in DOMAIN h.ps |-> ParamP(h.ps[i])])
-    \o Eol(ly) \o RBlock(h.ss, 1, ly) \o <<"end">> \o Eol(ly)
+LHandler(h, ly) ==
+  << IndP(0, ly) \o <<"on ", h.ev>> \o Flat([i \in DOMAIN h.ps |-> ParamP(h.ps[i])]) >> \o LBlock(h.ss, 1, ly) \o << IndP(0, ly) \o <<"end">> >>
 
-\* the whole program; functions first (or last when p.fl), then handlers
-RProg(p, ly) ==
-  LET F == Flat([i \in DOMAIN p.funcs |-> RFunc(p.funcs[i], ly) \o (IF ly = "tight" THEN <<>> ELSE <<"\n">>)])
-      H == Flat([i \in DOMAIN p.hs |-> (IF ly = "tight" THEN <<>> ELSE <<"\n">>) \o RHandler(p.hs[i], ly)])
-      M == RBlock(p.main, 0, ly)
-  IN IF p.fl THEN M \o (IF Len(p.funcs) > 0 /\ ly # "tight" THEN <<"\n">> ELSE <<>>) \o F \o H ELSE F \o M \o H
+\* the lines of the whole program; functions first (or last when p.fl), then handlers;
+\* an empty line <<>> separates top-level definitions
+LProg(p, ly) ==
+  LET B == << <<>> >>      \* the same in every layout: layouts differ in horizontal whitespace only
+      F == [i \in DOMAIN p.funcs |-> LFunc(p.funcs[i], ly)]
+      H == [i \in DOMAIN p.hs |-> LHandler(p.hs[i], ly)]
+      M == IF Len(p.main) = 0 THEN <<>> ELSE << LBlock(p.main, 0, ly) >>
+      secs == IF p.fl THEN M \o F \o H ELSE F \o M \o H
+  IN JoinP(secs, B)
+
+\* lines to text: every line is ended by a newline (with a trailing blank in the wide layout)
+JoinLines(ls, ly) == Flat([i \in DOMAIN ls |-> ls[i] \o (IF Len(ls[i]) = 0 THEN <<"\n">> ELSE Eol(ly))])
+RProg(p, ly) == JoinLines(LProg(p, ly), ly)
+
+\* the pieces of a line that are its indentation (see IndP)
+NIndent(ly) == IF ly = "wide" THEN 2 ELSE IF ly = "tight" THEN 0 ELSE 1
+IndentOf(line, ly) == SubSeq(line, 1, NIndent(ly))
+EML(x, per) == [k |-> "ml", x |-> x, per |-> per, ty |-> x.ty, cn |-> x.cn]
+RBlock(ss, d, ly) == JoinLines(LBlock(ss, d, ly), ly)
 
 =============================================================================
